@@ -6,8 +6,18 @@ package c14
 //
 //	tree := (kind D V U L tree*)                -- as in c14.go, kind A|T|C (every A has >= 1 child, the root is an A)
 //	      | (I var (val+) (kind D V U L tree*)) -- iterator: `for: {var, range|begin/end}` around a role template
+//	      | (N D V () () (A D' V' U' L' tree+)) -- include role: `include: <sub-workflow>` with the role's own defaults D / vars V
+//	                                               as written at the include SITE; the one child is the ROOT of the included
+//	                                               sub-workflow (its defaults D', vars V', children), which the harness serves from
+//	                                               an in-memory workflow repository through the LoadSubworkflowFunc handed to
+//	                                               ProcessTemplates. After the load the site is no role of its own: the include
+//	                                               role IS the loaded root (U' = its user vars, L' = probe locals), the site's maps
+//	                                               are one more level between it and the include role's parent. An iterator's
+//	                                               template may be an include role.
 //	ops  := ((S addr k v) | (G addr k v) | (D addr k) | (X addr k))*
-//	addr := (0 i j …)                           -- child indices through GetRoles() in the LOADED tree, (0) = the root
+//	addr := (0 i j …)                           -- child indices in the LOADED tree, (0) = the root; an include role is
+//	                                               addressed as the child 0 of its site ((0 i 0) when the site is child i of the
+//	                                               root, its own children (0 i 0 j)); a site itself is no role and has no address
 //
 // The template is rendered to YAML, unmarshalled with the package's own
 // unmarshallers, attached to the ParentAdapter (env) and LOADED with the real
@@ -23,6 +33,7 @@ package c14
 import (
 	"encoding/json"
 	"fmt"
+	"reflect"
 	"sort"
 	"strconv"
 	"strings"
@@ -48,6 +59,9 @@ type globalVarRole interface {
 }
 
 func isIter(t *sx.Node) bool { return t.IsList && t.Len() == 4 && !t.At(0).IsList && t.At(0).Str() == "I" }
+
+// isIncl: an include SITE (N D V () () root); in template and loaded shape alike.
+func isIncl(t *sx.Node) bool { return t.IsList && t.Len() >= 5 && !t.At(0).IsList && t.At(0).Str() == "N" }
 
 func validAtoms(n *sx.Node, min int) bool {
 	if !n.IsList || n.Len() < min {
@@ -79,6 +93,13 @@ func validTreeW(t *sx.Node, root bool) bool {
 		}
 	case "T", "C":
 		if t.Len() != 5 {
+			return false
+		}
+	case "N":
+		// the site has no user vars and no probe locals (it is no role after the load); exactly one
+		// child: the included root, a plain aggregator
+		if root || t.Len() != 6 || !t.At(3).IsList || t.At(3).Len() != 0 || !t.At(4).IsList || t.At(4).Len() != 0 ||
+			isIter(t.At(5)) || !t.At(5).IsList || t.At(5).Len() < 1 || t.At(5).At(0).IsList || t.At(5).At(0).Str() != "A" {
 			return false
 		}
 	default:
@@ -172,7 +193,10 @@ func validOps(ops, loaded *sx.Node) bool {
 			return false
 		}
 		a, ok := addrOf(o.At(1))
-		if !ok || nodeAt(loaded, a) == nil {
+		if !ok {
+			return false
+		}
+		if n := nodeAt(loaded, a); n == nil || isIncl(n) {
 			return false
 		}
 	}
@@ -253,7 +277,14 @@ func consecutiveInts(vals []*sx.Node) (int, int, bool) {
 	return first, first + len(vals) - 1, true
 }
 
-func yamlOfW(n *sx.Node, name, indent string, b *strings.Builder, top bool, style int) {
+// yamlW renders a template; every include role gets a sub-workflow of its own in `subs`
+// (name -> YAML document), the in-memory workflow repository of this case.
+type yamlW struct {
+	style int
+	subs  map[string]string
+}
+
+func (y *yamlW) node(n *sx.Node, name, indent string, b *strings.Builder, top bool) {
 	pre, cont := indent+"- ", indent+"  "
 	if top {
 		pre, cont = "", ""
@@ -278,19 +309,76 @@ func yamlOfW(n *sx.Node, name, indent string, b *strings.Builder, top bool, styl
 		}
 		fmt.Fprintf(b, "%s  var: %s\n", cont, n.At(1).Str())
 	}
-	yamlMap(b, cont, "defaults", kvOf(body.At(1)), style)
-	yamlMap(b, cont, "vars", kvOf(body.At(2)), style)
+	yamlMap(b, cont, "defaults", kvOf(body.At(1)), y.style)
+	yamlMap(b, cont, "vars", kvOf(body.At(2)), y.style)
+	base := strings.SplitN(name, "_{{", 2)[0]
 	switch body.At(0).Str() {
 	case "T":
 		fmt.Fprintf(b, "%stask:\n%s  load: cls\n", cont, cont)
 	case "C":
 		fmt.Fprintf(b, "%scall:\n%s  func: noop()\n", cont, cont)
+	case "N":
+		// the included workflow is a document of its own: its root carries the file's name (the
+		// include role keeps ITS name), its children are named after the site
+		sub := fmt.Sprintf("sub%d", len(y.subs))
+		y.subs[sub] = "" // reserve the name before descending (nested includes)
+		fmt.Fprintf(b, "%sinclude: %s\n", cont, sub)
+		var sb strings.Builder
+		root := body.At(5)
+		fmt.Fprintf(&sb, "name: %s\n", yq(sub))
+		yamlMap(&sb, "", "defaults", kvOf(root.At(1)), y.style)
+		yamlMap(&sb, "", "vars", kvOf(root.At(2)), y.style)
+		fmt.Fprintf(&sb, "roles:\n")
+		for i := 5; i < root.Len(); i++ {
+			y.node(root.At(i), fmt.Sprintf("%s_%d", base, i-5), "  ", &sb, false)
+		}
+		y.subs[sub] = sb.String()
 	default:
 		fmt.Fprintf(b, "%sroles:\n", cont)
 		for i := 5; i < body.Len(); i++ {
-			yamlOfW(body.At(i), fmt.Sprintf("%s_%d", strings.SplitN(name, "_{{", 2)[0], i-5), cont+"  ", b, false, style)
+			y.node(body.At(i), fmt.Sprintf("%s_%d", base, i-5), cont+"  ", b, false)
 		}
 	}
+}
+
+// subworkflowLoader: a workflow.LoadSubworkflowFunc over the in-memory repository `subs`, doing
+// what the closure in workflow.Load does with the repository manager's file: a fresh root,
+// unmarshalled by the package's own unmarshaller, hung under `parent` with setParent. The
+// function type mentions the unexported *aggregatorRole, hence reflect.MakeFunc.
+func subworkflowLoader(subs map[string]string, repo repos.IRepo) workflow.LoadSubworkflowFunc {
+	ft := reflect.TypeOf(workflow.LoadSubworkflowFunc(nil))
+	fail := func(err error) []reflect.Value {
+		return []reflect.Value{reflect.Zero(ft.Out(0)), reflect.Zero(ft.Out(1)), reflect.ValueOf(&err).Elem()}
+	}
+	fn := reflect.MakeFunc(ft, func(args []reflect.Value) []reflect.Value {
+		expr := args[0].String() // <repo identifier>/workflows/<name>@<hash>, see Repo.ResolveSubworkflowTemplateIdentifier
+		name := expr
+		if i := strings.LastIndex(name, "/"); i >= 0 {
+			name = name[i+1:]
+		}
+		if i := strings.Index(name, "@"); i >= 0 {
+			name = name[:i]
+		}
+		doc, ok := subs[name]
+		if !ok {
+			return fail(fmt.Errorf("no sub-workflow %q in the harness repository (expression %q)", name, expr))
+		}
+		root := workflow.NewAggregatorRole("", nil)
+		if err := yaml.Unmarshal([]byte(doc), root); err != nil {
+			return fail(fmt.Errorf("sub-workflow yaml: %v\n%s", err, doc))
+		}
+		if !args[1].IsNil() {
+			workflow.VerifC14SetParent(root, args[1].Interface().(workflow.Updatable))
+		}
+		rv := reflect.ValueOf(root)
+		if rv.Type() != ft.Out(0) {
+			return fail(fmt.Errorf("NewAggregatorRole yields %s, LoadSubworkflowFunc wants %s", rv.Type(), ft.Out(0)))
+		}
+		rr := reflect.New(ft.Out(1)).Elem()
+		rr.Set(reflect.ValueOf(repo))
+		return []reflect.Value{rv, rr, reflect.Zero(ft.Out(2))}
+	})
+	return fn.Interface().(workflow.LoadSubworkflowFunc)
 }
 
 // loadTree renders the template, unmarshals it, hangs it under `parent` (nil: no
@@ -298,7 +386,8 @@ func yamlOfW(n *sx.Node, name, indent string, b *strings.Builder, top bool, styl
 func loadTree(style int, tree *sx.Node, parent workflow.Updatable, baseConfigStack map[string]string) (workflow.Role, error) {
 	confOnce.Do(func() { viper.Set("configServiceUri", "mock://") })
 	var b strings.Builder
-	yamlOfW(tree, "r", "", &b, true, style)
+	y := &yamlW{style: style, subs: map[string]string{}}
+	y.node(tree, "r", "", &b, true)
 	root := workflow.NewAggregatorRole("", nil)
 	if err := yaml.Unmarshal([]byte(b.String()), root); err != nil {
 		return nil, fmt.Errorf("yaml: %v\n%s", err, b.String())
@@ -308,7 +397,7 @@ func loadTree(style int, tree *sx.Node, parent workflow.Updatable, baseConfigSta
 	}
 	workflow.LinkChildrenToParents(root)
 	repo := theRepo
-	if err := root.ProcessTemplates(&repo, nil, baseConfigStack); err != nil {
+	if err := root.ProcessTemplates(&repo, subworkflowLoader(y.subs, &repo), baseConfigStack); err != nil {
 		return nil, fmt.Errorf("ProcessTemplates: %v\n%s", err, b.String())
 	}
 	if !root.IsEnabled() {
@@ -347,6 +436,10 @@ func pairLoaded(root workflow.Role, loaded *sx.Node) ([]loadedPair, error) {
 	var pre []loadedPair
 	var walk func(r workflow.Role, t *sx.Node) error
 	walk = func(r workflow.Role, t *sx.Node) error {
+		if isIncl(t) {
+			// the include role IS the loaded root of the sub-workflow; the site is no role
+			t = t.At(5)
+		}
 		pre = append(pre, loadedPair{r, t})
 		kids := r.GetRoles()
 		if len(kids) != t.Len()-5 {
@@ -365,12 +458,24 @@ func pairLoaded(root workflow.Role, loaded *sx.Node) ([]loadedPair, error) {
 	return pre, nil
 }
 
-// applyOp runs one runtime write on the addressed role of the loaded tree.
-func applyOp(root workflow.Role, o *sx.Node) error {
+// applyOp runs one runtime write on the addressed role of the loaded tree (`loaded` = its shape:
+// the step from an include site to the included root is no step through GetRoles()).
+func applyOp(root workflow.Role, loaded *sx.Node, o *sx.Node) error {
 	a, _ := addrOf(o.At(1))
-	r := root
+	r, t := root, loaded
 	for _, i := range a[1:] {
-		r = r.GetRoles()[i]
+		if isIncl(t) {
+			t = t.At(5)
+			continue
+		}
+		kids := r.GetRoles()
+		if i >= len(kids) || 5+i >= t.Len() {
+			return fmt.Errorf("no role at %s", o.At(1).String())
+		}
+		r, t = kids[i], t.At(5+i)
+	}
+	if isIncl(t) {
+		return fmt.Errorf("%s addresses an include site, not a role", o.At(1).String())
 	}
 	switch o.At(0).Str() {
 	case "S":
@@ -416,7 +521,7 @@ func runWrites(in *sx.Node) (string, error) {
 		}
 	}
 	for _, o := range in.At(4).List {
-		if err := applyOp(root, o); err != nil {
+		if err := applyOp(root, loaded, o); err != nil {
 			return "", err
 		}
 	}
